@@ -42,15 +42,27 @@ class RigHang(BaseException):
 
 
 class VQueue:
-    def __init__(self, rig, idx):
-        self.rig, self.idx = rig, idx
+    def __init__(self, rig, idx, asynchronous=False):
+        # asynchronous: a plain multiprocessing.Queue -- put() only hands the item to a feeder thread of the producing
+        # process; it reaches the consumer some time before that process exits (a Manager().Queue() put is a round trip:
+        # the item is in the queue when put() returns)
+        self.rig, self.idx, self.asynchronous = rig, idx, asynchronous
 
     # --- producer side (workers)
     def put(self, item, *a, **k):
-        self.rig.route_put(item)
+        self.rig.route_put(item, self)
 
     def put_nowait(self, item):
-        self.rig.route_put(item)
+        self.rig.route_put(item, self)
+
+    def cancel_join_thread(self):
+        pass
+
+    def close(self):
+        pass
+
+    def join_thread(self):
+        pass
 
     # --- consumer side (parent)
     def get(self, block=True, timeout=None):
@@ -104,6 +116,11 @@ class VContext:
 
     def get_start_method(self, allow_none=False):
         return self.method
+
+    def Queue(self, maxsize=-1):
+        q = VQueue(self.rig, len(self.rig.queues), asynchronous=True)
+        self.rig.queues.append(q)
+        return q
 
 
 class VManager:
@@ -413,12 +430,13 @@ class VirtRig:
                 w.outbox, w.runlogs, w.exitlogs, w.events = [], [], [], []
 
     # ------------------------------------------------------------------ queues
-    def route_put(self, item):
+    def route_put(self, item, q=None):
         w = self.cur_worker
         if isinstance(item, logging.LogRecord):
             if w is None:
                 self.logq.append(item)
-            elif self.in_exit_flush:
+            elif self.in_exit_flush or (q is not None and q.asynchronous):
+                # (an asynchronous queue may deliver as late as the exit of the producing process: the adversarial choice)
                 w.exitlogs.append(item)
             else:
                 w.runlogs.append(item)
